@@ -391,13 +391,17 @@ def BASE(value, base, places=DEFAULT):
             return places
         if places < 0:
             return error.NUM
+    if value < 0 or base < 2 or base > 36:
+        return error.NUM  # the digit loop below does not terminate for these
+    value = int(value)
+    base = int(base)
     if value == 0:
         return '0'
     digits = []
     while value:
-        digits.append(int(value % base))
+        digits.append(value % base)
         value //= base
-    result = ''.join(str(n) for n in digits[::-1])
+    result = ''.join('0123456789ABCDEFGHIJKLMNOPQRSTUVWXYZ'[n] for n in digits[::-1])
     if places is not DEFAULT:
         if len(result) > places:
             return error.NUM
